@@ -43,6 +43,12 @@ def fresh_symbol(Sigma: Set[str], symbols: Iterable[str]) -> Symbol:
         index = index + 1
 
 
+def pda_unshare_transition_targets(P: PDA) -> None:
+    """Gives every entry of P.delta a set object of its own (several entries may refer to one set object)"""
+    for key in list(P.delta.keys()):
+        P.delta[key] = set(P.delta[key])
+
+
 def pda_to_one_accepting_state_in_place(P: PDA) -> None:
     """Modifies P such that it has exactly one accepting state"""
 
@@ -53,6 +59,8 @@ def pda_to_one_accepting_state_in_place(P: PDA) -> None:
 
     if len(F) == 1:
         return
+
+    pda_unshare_transition_targets(P)
 
     q_accept = fresh_state(Q, 'q_accept')
     Q.add(q_accept)
@@ -74,6 +82,7 @@ def pda_to_accept_on_empty_stack_in_place(P: PDA) -> None:
     F = P.F
     epsilon = P.epsilon
 
+    pda_unshare_transition_targets(P)
     stack_bottom = fresh_symbol(Gamma | {epsilon}, '$@#*&!?')
     Gamma.add(stack_bottom)
 
@@ -114,6 +123,7 @@ def pda_to_push_pop_in_place(P: PDA) -> None:
     epsilon = P.epsilon
 
     pda_to_one_accepting_state_in_place(P)
+    pda_unshare_transition_targets(P)
 
     # add intermediate states to enforce push/pop transitions
     dummy = fresh_symbol(Gamma | {epsilon}, '∅')
